@@ -362,13 +362,14 @@ Proof.
     unfold body_kvs in Hin. unfold seen_mail.
     destruct (seen_body ext o) as [|s0 st] eqn:Esb; [destruct Hin|]. destruct Hin as [<-|[]].
     destruct Hsb as [Hsb|[Hv Hbin]]; [discriminate|]. cbn [fst snd]. split; [|split].
-    + destruct Hv as [-> | [-> | ->]]; (repeat split; try reflexivity; left; split; reflexivity).
+    + destruct Hv as [-> | [-> | ->]]; (repeat split; try reflexivity; left; split; [reflexivity|split; [discriminate|reflexivity]]).
     + destruct Hv as [-> | [-> | ->]]; (split; [reflexivity|discriminate]).
     + intros o' bm. rewrite (C14_body_param cfg (s0 :: st) o' bm Hv Hbin). reflexivity.
   - (* SIZE *)
     destruct (mo_size o =? 0)%Z eqn:Z; [destruct Hin|]. destruct Hin as [<-|[]].
     pose proof (dec_of_Z_zch (mo_size o)) as Hz. split; [|split].
-    + repeat split; try reflexivity. left. split; [now apply zch_no_eq|reflexivity].
+    + repeat split; try reflexivity. left. split; [now apply zch_no_eq|split; [|reflexivity]].
+      cbn [snd]. unfold Reply.dec_of_Z. destruct (mo_size o <? 0)%Z; [discriminate|apply ReplyProofs.dec_of_N_nonempty].
     + split; [|discriminate]. apply ws_free_ascii. tokof.
       change (bs "SIZE" ++ "=" :: dec_of_Z (mo_size o)) with (bs "SIZE=" ++ dec_of_Z (mo_size o)).
       rewrite forallb_app. rewrite (zch_tokch _ Hz). reflexivity.
@@ -391,7 +392,7 @@ Proof.
     assert (Hd : cf_dsn cfg = true) by (apply Sd; left; discriminate).
     assert (Hv : r0 :: r = bs "FULL" \/ r0 :: r = bs "HDRS") by (destruct Hret as [?|?]; [discriminate|assumption]).
     split; [|split].
-    + repeat split; try reflexivity. left. split; [destruct Hv as [-> | ->]; reflexivity|reflexivity].
+    + repeat split; try reflexivity. left. split; [destruct Hv as [-> | ->]; reflexivity|split; [discriminate|reflexivity]].
     + split; [destruct Hv as [-> | ->]; reflexivity|discriminate].
     + intros o' bm. cbn [fst snd]. nobin. rewrite C14_ret by assumption.
       unfold mo_merge, seen_mail, set_body, set_ret. cbn. now rewrite R.
@@ -399,7 +400,8 @@ Proof.
     destruct (mo_envid o) as [|e0 e] eqn:R; [destruct Hin|]. destruct Hin as [<-|[]].
     assert (Hd : cf_dsn cfg = true) by (apply Sd; right; discriminate).
     pose proof (encode_xtext_xtch (e0 :: e)) as Hx. split; [|split].
-    + repeat split; try reflexivity. left. split; [now apply xtch_no_eq|reflexivity].
+    + repeat split; try reflexivity. left. split; [now apply xtch_no_eq|split; [|reflexivity]].
+      cbn [snd]. apply encode_xtext_nonempty; [apply printable_ascii7, Hp|discriminate].
     + split; [|discriminate]. apply ws_free_ascii. tokof.
       change (bs "ENVID" ++ "=" :: encode_xtext (e0 :: e)) with (bs "ENVID=" ++ encode_xtext (e0 :: e)).
       rewrite forallb_app. rewrite (xtch_tokch _ Hx). reflexivity.
@@ -409,13 +411,14 @@ Proof.
     destruct (mo_auth o) as [a|] eqn:R; [|destruct Hin]. destruct Hin as [<-|[]].
     destruct a as [|a0 a].
     + split; [|split].
-      * repeat split; try reflexivity. left. split; reflexivity.
+      * repeat split; try reflexivity. left. split; [reflexivity|split; [discriminate|reflexivity]].
       * split; [reflexivity|discriminate].
       * intros o' bm. cbn [fst snd]. nobin. rewrite C14_auth_empty.
         unfold mo_merge, seen_mail, set_body, set_auth. cbn. now rewrite R.
     + destruct Hauth as [Ha Hm]. cbn [Client.auth_value].
       pose proof (encode_xtext_xtch (a0 :: a)) as Hx. split; [|split].
-      * repeat split; try reflexivity. left. split; [now apply xtch_no_eq|reflexivity].
+      * repeat split; try reflexivity. left. split; [now apply xtch_no_eq|split; [|reflexivity]].
+        cbn [snd]. apply encode_xtext_nonempty; [exact Ha|discriminate].
       * split; [|discriminate]. apply ws_free_ascii. tokof.
         change (bs "AUTH" ++ "=" :: encode_xtext (a0 :: a)) with (bs "AUTH=" ++ encode_xtext (a0 :: a)).
         rewrite forallb_app. rewrite (xtch_tokch _ Hx). reflexivity.
@@ -857,7 +860,8 @@ Proof.
     pose proof notify_tok_chk as C. rewrite forallb_forall in C. specialize (C _ Hset).
     apply andb_true_iff in C as [C C3]. apply andb_true_iff in C as [C1 C2]. apply negb_true_iff in C1.
     split; [|split].
-    + repeat split; try reflexivity. left. split; [exact C1|reflexivity].
+    + repeat split; try reflexivity. left. split; [exact C1|split; [|reflexivity]].
+      cbn [snd]. intros E. rewrite E in C3. discriminate C3.
     + split; [|discriminate]. apply ws_free_ascii. tokof.
       change (bs "NOTIFY" ++ "=" :: join (bs ",") (n0 :: ns)) with (bs "NOTIFY=" ++ join (bs ",") (n0 :: ns)).
       rewrite forallb_app, C2. reflexivity.
@@ -870,7 +874,7 @@ Proof.
     destruct Ho as [Ho|[[Ht Hp]|(Ht & cs & Hcs & Ha & Hw)]]; [discriminate| |].
     + rewrite Ht, R. change (bytes_eqb (bs "RFC822") (bs "RFC822")) with true. cbv iota.
       pose proof (encode_xtext_xtch (a0 :: a)) as Hx. try rewrite R in Hp. split; [|split].
-      * repeat split; try reflexivity. left. split; [|reflexivity].
+      * repeat split; try reflexivity. left. split; [|split; [intros E; cbn in E; discriminate E|reflexivity]].
         cbn [fst snd]. rewrite mem_byte_app, (xtch_no_eq _ Hx). reflexivity.
       * split; [|discriminate]. apply ws_free_ascii. tokof.
         change (bs "ORCPT" ++ "=" :: bs "RFC822;" ++ encode_xtext (a0 :: a))
@@ -883,7 +887,7 @@ Proof.
       assert (Hne : cs <> []) by (intros ->; discriminate).
       destruct (Client.has_ext ext (bs "SMTPUTF8")) eqn:U.
       * specialize (Hw eq_refl). split; [|split].
-        -- repeat split; try reflexivity. left. split; [|reflexivity].
+        -- repeat split; try reflexivity. left. split; [|split; [intros E; cbn in E; discriminate E|reflexivity]].
            cbn [fst snd]. rewrite mem_byte_app, unitext_no_eq. reflexivity.
         -- split; [|discriminate]. tokof.
            change (bs "ORCPT" ++ "=" :: bs "UTF-8;" ++ encode_utf8_addr_unitext (a0 :: a))
@@ -892,7 +896,7 @@ Proof.
         -- intros o'. cbn [fst snd]. rewrite Hcs. rewrite C14_orcpt_utf8_unitext by assumption.
            unfold ro_merge, seen_rcpt, set_orcpt. cbn. now rewrite R, Ht, Hcs.
       * pose proof (utf8_xtext_u8xch (a0 :: a)) as Hx. split; [|split].
-        -- repeat split; try reflexivity. left. split; [|reflexivity].
+        -- repeat split; try reflexivity. left. split; [|split; [intros E; cbn in E; discriminate E|reflexivity]].
            cbn [fst snd]. rewrite mem_byte_app, (u8xch_no_eq _ Hx). reflexivity.
         -- split; [|discriminate]. apply ws_free_ascii. tokof.
            change (bs "ORCPT" ++ "=" :: bs "UTF-8;" ++ encode_utf8_addr_xtext (a0 :: a))
@@ -905,7 +909,9 @@ Proof.
     destruct (Client.rt_is_zero t) eqn:Z; [destruct Hin|]. destruct Hin as [<-|[]].
     destruct Hr as [Hr|Hr]; [congruence|].
     pose proof (ClientProofs.format_rfc3339_timech t) as Ht. split; [|split].
-    + repeat split; try reflexivity. left. split; [now apply timech_no_eq|reflexivity].
+    + repeat split; try reflexivity. left. split; [now apply timech_no_eq|split; [|reflexivity]].
+      cbn [snd]. unfold Client.format_rfc3339. destruct (Client.civil_from_days _) as [[y m] d].
+      intros E. apply app_eq_nil in E as [_ E]. discriminate E.
     + split; [|discriminate]. apply ws_free_ascii. tokof.
       change (bs "RRVS" ++ "=" :: Client.format_rfc3339 t) with (bs "RRVS=" ++ Client.format_rfc3339 t).
       rewrite forallb_app, (timech_tokch _ Ht). reflexivity.
